@@ -66,7 +66,7 @@ def lut_requests(case, cube):
                 id_names[k_id] = [names[j]]
                 k_id += 1
             continue
-        luts.append({"axes": list(ec["axes"]), "id": k_id, "sep": ec["kind"] == "quantity2"})
+        luts.append({"axes": list(ec["axes"]), "id": k_id, "sep": ec["kind"] in E.SEPARABLE})
         id_names[k_id] = E.names_of(k, ec)
         k_id += 1
     return luts, id_names
